@@ -83,9 +83,9 @@ def lexLess (k : Bytes → Nat) (a b : Entry) : Bool :=
     else false
   else false
 
-theorem less_of_39 (a b : Entry) (h : a.1.length = 39) :
+theorem less_of_39 (a b : Entry) (h : a.1.length = 39) (hb : b.1.length = 39) :
     less a b = lexLess (fun c => beNat (c.drop 7)) a b := by
-  simp [less, lexLess, h]
+  simp [less, lexLess, h, hb]
 
 theorem less_of_not39 (a b : Entry) (h : a.1.length ≠ 39) :
     less a b = lexLess beNat a b := by
@@ -188,14 +188,14 @@ def Is39 (e : Entry) : Prop := e.1.length = 39
 def Not39 (e : Entry) : Prop := e.1.length ≠ 39
 
 theorem good39 : GoodOrder Is39 where
-  irrefl a ha := by rw [less_of_39 a a ha]; exact lexLess_irrefl _ a
+  irrefl a ha := by rw [less_of_39 a a ha ha]; exact lexLess_irrefl _ a
   asymm a b ha hb h := by
-    rw [less_of_39 a b ha] at h; rw [less_of_39 b a hb]; exact lexLess_asymm _ a b h
-  trans a b c ha hb _ h₁ h₂ := by
-    rw [less_of_39 a b ha] at h₁; rw [less_of_39 b c hb] at h₂; rw [less_of_39 a c ha]
+    rw [less_of_39 a b ha hb] at h; rw [less_of_39 b a hb ha]; exact lexLess_asymm _ a b h
+  trans a b c ha hb hc h₁ h₂ := by
+    rw [less_of_39 a b ha hb] at h₁; rw [less_of_39 b c hb hc] at h₂; rw [less_of_39 a c ha hc]
     exact lexLess_trans _ a b c h₁ h₂
   total a b ha hb hne := by
-    rw [less_of_39 a b ha, less_of_39 b a hb]; exact lexLess_total _ a b hne
+    rw [less_of_39 a b ha hb, less_of_39 b a hb ha]; exact lexLess_total _ a b hne
 
 theorem goodNot39 : GoodOrder Not39 where
   irrefl a ha := by rw [less_of_not39 a a ha]; exact lexLess_irrefl _ a
